@@ -5,9 +5,9 @@ from common import *
 from pipeline import run_pipeline
 
 TIERS = {
-    "quick": dict(mc=[(f"MC_Wakeup_{s}.cfg", 4) for s in ("stream", "mio6", "mio8", "awrite", "await", "nk_dv", "nk_vd", "nk_vdv", "nk_ddv", "stream_ohd", "mio6_ohd", "mio8_doh", "stream_hoh", "mio8_oohd")],
-                  replay_limit=5000, random=dict(runs=300, events=60)),
-    "thorough": dict(mc=[(f"MC_Wakeup_{s}.cfg", 4) for s in ("stream", "mio6", "mio8", "awrite", "await", "nk_dv", "nk_vd", "nk_vdv", "nk_ddv", "stream_ohd", "mio6_ohd", "mio8_doh", "stream_hoh", "mio8_oohd")] + [("MC_Wakeup_stream3.cfg", 8), ("MC_Wakeup_awrite3.cfg", 8), ("MC_Wakeup_nk_vddv.cfg", 8)],
+    "quick": dict(mc=[(f"MC_Wakeup_{s}.cfg", 4) for s in ("stream", "mio6", "mio8", "awrite", "await", "awaitq_full", "awaitq_full_nr", "awaitq_r2", "awaitq_r0", "awaitq_r15", "nk_dv", "nk_vd", "nk_vdv", "nk_ddv", "stream_ohd", "mio6_ohd", "mio8_doh", "stream_hoh", "mio8_oohd")],
+                  replay_limit=15000, jobs=12, random=dict(runs=300, events=60)),
+    "thorough": dict(mc=[(f"MC_Wakeup_{s}.cfg", 4) for s in ("stream", "mio6", "mio8", "awrite", "await", "awaitq_full", "awaitq_full_nr", "awaitq_r2", "awaitq_r0", "awaitq_r15", "nk_dv", "nk_vd", "nk_vdv", "nk_ddv", "stream_ohd", "mio6_ohd", "mio8_doh", "stream_hoh", "mio8_oohd")] + [("MC_Wakeup_stream3.cfg", 8), ("MC_Wakeup_awrite3.cfg", 8), ("MC_Wakeup_nk_vddv.cfg", 8)],
                      replay_limit=40000, random=dict(runs=6000, events=120)),
 }
 ASSUME = [
@@ -52,7 +52,7 @@ def lockstep(d):
                             missing = True; scr.append("O")
                         else:
                             scr.append("D")
-                    key = json.dumps([sp["scenario"], sp["n"], sp.get("kinds", []), scr])
+                    key = json.dumps([sp["scenario"], sp["n"], sp.get("kinds", []), scr, sp.get("readers", 0)])
                     cur = groups.setdefault(key, [])
                     e["src"] = os.path.basename(sub)
                 if cur is not None:
@@ -60,14 +60,14 @@ def lockstep(d):
     sd = clean_dir(os.path.join(d, "steps"))
     files = []
     for key, evs in sorted(groups.items()):
-        sc, n, kinds, script = json.loads(key)
+        sc, n, kinds, script, readers = json.loads(key)
         f = os.path.join(sd, f"steps_{sc}_{hashlib.sha1(key.encode()).hexdigest()[:10]}.ndjson")
         with open(f, "w") as fh:
-            fh.write(json.dumps({"ev": "Config", "scenario": sc, "N": n, "kinds": kinds, "script": script}) + "\n")
+            fh.write(json.dumps({"ev": "Config", "scenario": sc, "N": n, "kinds": kinds, "script": script, "readers": readers}) + "\n")
             for e in evs:
                 fh.write(json.dumps(e) + "\n")
         files.append(f)
-    res = validate_traces("Trace_WakeupSteps.tla", "Trace_WakeupSteps.cfg", files, "C13", jobs=8)
+    res = validate_traces("Trace_WakeupSteps.tla", "Trace_WakeupSteps.cfg", files, "C13", jobs=12)
     diverged = []
     for r in res:
         if r["stuck_line"] is not None:
